@@ -84,7 +84,13 @@ def gen_ptb(rng, pythtb, exact=True, spin=None, dim=None):
     for _ in range(rng.choice([0, 0, 1, 2, 3, 4, 5, 7, 9])):
         i, j = rng.randrange(norb), rng.randrange(norb)
         R = tuple(rng.randint(-2, 2) for _ in range(dim))
-        if (i == j and all(x == 0 for x in R)) or (i, j, R) in seen or (j, i, tuple(-x for x in R)) in seen:
+        if (i == j and all(x == 0 for x in R)) or (i, j, R) in seen:
+            continue
+        mR = tuple(-x for x in R)
+        # a bond may also be given through its conjugate partner (j,i,-R): PythTB accepts that with
+        # allow_conjugate_pair=True and SUMS both contributions into the same matrix element
+        conj_pair = (j, i, mR) in seen
+        if conj_pair and (i, j, R) == (j, i, mR):
             continue
         seen.add((i, j, R))
         if spin:
@@ -97,8 +103,23 @@ def gen_ptb(rng, pythtb, exact=True, spin=None, dim=None):
                 amp = np.array([[val(), val()], [val(), val()]])
         else:
             amp = val()
-        m.set_hop(amp, i, j, list(R))
+        if conj_pair:
+            m.set_hop(amp, i, j, list(R), allow_conjugate_pair=True)
+        else:
+            m.set_hop(amp, i, j, list(R))
         hops.append((amp, i, j, R))
+    # make conjugate pairs frequent enough to matter: with probability 1/3 add the partner of an existing hopping
+    if hops and rng.random() < 0.34:
+        amp0, i0, j0, R0 = hops[rng.randrange(len(hops))]
+        mR0 = tuple(-x for x in R0)
+        if (j0, i0, mR0) not in seen and (i0, j0, R0) != (j0, i0, mR0):
+            seen.add((j0, i0, mR0))
+            if spin:
+                amp = rng.choice([val(), [val() for _ in range(4)], np.array([[val(), val()], [val(), val()]])])
+            else:
+                amp = val()
+            m.set_hop(amp, j0, i0, list(mR0), allow_conjugate_pair=True)
+            hops.append((amp, j0, i0, mR0))
     return m, dict(dim=dim, norb=norb, spin=spin, lat=L, orb=orb, onsite=ons, hops=hops)
 
 
